@@ -221,9 +221,17 @@ def t3_adaptive(case):
     snaps = [spec.Snap(op), spec.Snap(init), spec.Snap(guess)]
     t_end = float(rng.uniform(0.05, 0.5))
     method = str(rng.choice(['two_step_Euler', 'trapezoidal_rule']))
+    first = float(rng.choice([1e-3, 1e-2, 1.0]))
+    etol = float(rng.choice([1e-1, 1e-2]))
+    ctol = 0.5
+    if case['k'] % 2 == 0:
+        # a first step beyond the end time that is accepted (loose tolerances): the recorded time must still be clipped
+        t_end = float(rng.uniform(0.005, 0.03)) / max(1.0, float(np.max(np.abs(A))))
+        first = float(rng.uniform(1.5, 4.0)) * t_end
+        etol, ctol = 1e6, 1e6
     ok, res = c.guarded('post:times-strictly-increasing', lambda: ode.adaptive_step_size(
-        op, init, guess, t_end, step_size_first=float(rng.choice([1e-3, 1e-2, 1.0])), second_method=method, progress=False,
-        closeness_min=1e-12, error_tol=float(rng.choice([1e-1, 1e-2]))))
+        op, init, guess, t_end, step_size_first=first, second_method=method, progress=False,
+        closeness_min=1e-12, error_tol=etol, closeness_tol=ctol))
     if ok:
         sol, times = res
         c.add('post:len(solution)==len(time_steps)', len(sol) == len(times), '%d %d' % (len(sol), len(times)))
